@@ -58,6 +58,7 @@ class Driver:
         self.listeners = {}  # (host, id) -> RecordingListener
         self.lookups = []  # dicts
         self.first_infos = {}
+        self._withdrawn = {}  # (host, name) -> an unregister was issued since the last register
         self.stalls = []  # (t_from, t_until, host) injected process stalls
         self._op_queue = {}  # host -> API calls issued while its process was stalled, in order
         self.op_log = []  # (op index, op, api entry or None)
@@ -117,6 +118,12 @@ class Driver:
         if not h.alive:
             return None
         info = mk_info(op["svc"])
+        if op.get("reuse") and (h.name, info.name.lower()) in self.first_infos and \
+                self._withdrawn.get((h.name, info.name.lower())):
+            # the application registers the object it used (and unregistered) before; registering an object that is
+            # still registered is API misuse and is not generated
+            info = self.first_infos[(h.name, info.name.lower())]
+        self._withdrawn[(h.name, info.name.lower())] = False
         self.infos[(h.name, info.name.lower())] = info
         self.first_infos.setdefault((h.name, info.name.lower()), info)
         kw = {}
@@ -124,8 +131,19 @@ class Driver:
             kw["allow_name_change"] = True
         if op.get("ttl") is not None:
             kw["ttl"] = op["ttl"]
-        e = self.w.spawn(h, "register", lambda: h.azc.async_register_service(info, **kw), op["svc"]["name"])
+        if op.get("cooperating"):
+            kw["cooperating_responders"] = True  # documented flag: register without probing
+        named = {}
+
+        async def _register():
+            try:
+                return await h.azc.async_register_service(info, **kw)
+            finally:
+                named["name"] = info.name  # the object may be registered again (and renamed again) later
+
+        e = self.w.spawn(h, "register", _register, op["svc"]["name"])
         e["info"] = info
+        e["named"] = named
         e["svc"] = op["svc"]
         e["allow_name_change"] = bool(op.get("allow_name_change"))
         return e
@@ -169,6 +187,7 @@ class Driver:
             # unregistering a name whose registration has not returned yet is outside every property's quantifier
             # (sequences of API calls, not overlapping ones): the call is not made
             return None
+        self._withdrawn[(h.name, op["name"].lower())] = True
         e = self.w.spawn(h, "unregister", lambda: h.azc.async_unregister_service(info), op["name"])
         e["info"] = info
         return e
